@@ -13,6 +13,7 @@ import LcdbModel.Model.DbIter
 import Driver.IoAbs
 import LcdbModel.Model.Files
 import LcdbModel.Model.Compaction
+import LcdbModel.Model.Policy
 open Lcdb Drv
 
 structure BatchRec where
@@ -90,6 +91,10 @@ structure TS where
   pendingNested : List (Nat × Nat × String × Run) := []
   nCrashNontrivial : Nat := 0
   nJ : Nat := 0
+  mfs : Nat := 2097152                        -- options.max_file_size (`opts` line)
+  nInputs : Nat := 0                          -- compactions whose input sets were recomputed with Policy.setupStage1
+  nPickLevel : Nat := 0                       -- flushes whose level was recomputed with Policy.pickLevel
+  nPickDeep : Nat := 0                        -- of them below level 0
   csnap : Option Nat := none                  -- smallest snapshot of the compaction whose edit comes next (`csnap` line)
   nDropLoop : Nat := 0                        -- compactions whose output was recomputed with Compaction.expectedOutput
   nDropped : Nat := 0                         -- entries those compactions dropped
@@ -204,7 +209,16 @@ def handleEdit (t : TS) (spec : String) (rc : String) : TS :=
           match addsM with
           | [] => if t.st.imm == some [] then t.doStep .dropImm "drop empty imm" else t
           | [(a, f)] =>
-            if t.st.imm.isSome then { (t.doStep (.flush a.level f) s!"flush of imm to level {a.level} as table {f.num}") with nFlush := t.nFlush + 1 }
+            if t.st.imm.isSome then
+              -- the level is the one pick_level_for_memtable_output chooses on this version (Model/Policy.lean), or 0 (a flush
+              -- made inline by a running compaction, and every flush of recovery, goes to level 0)
+              let t := match Policy.pickLevel t.cmp t.st.levels t.mfs f.sk f.lk with
+                | some l =>
+                  let t := { t with nPickLevel := t.nPickLevel + 1, nPickDeep := t.nPickDeep + (if a.level > 0 then 1 else 0) }
+                  if a.level == l || a.level == 0 then t
+                  else t.problem "MISMATCH[picklevel]" s!"flush of table {f.num} went to level {a.level}; pick_level_for_memtable_output yields {l} on this version"
+                | none => t.problem "MISMATCH[picklevel]" "pick_level_for_memtable_output of the model faults"
+              { (t.doStep (.flush a.level f) s!"flush of imm to level {a.level} as table {f.num}") with nFlush := t.nFlush + 1 }
             else t.problem "MISMATCH[other]" s!"edit adds table {f.num} with no deletion while no immutable memtable exists"
           | _ => t.problem "MISMATCH[other]" "edit adds several tables without deleting any"
         else
@@ -237,6 +251,22 @@ def handleEdit (t : TS) (spec : String) (rc : String) : TS :=
                   let extra := got.filter (fun e => !exp.contains e)
                   let missing := exp.filter (fun e => !got.contains e)
                   t.problem "MISMATCH[droploop]" s!"compaction L{level} in0={in0} in1={in1} smallest={sm}: the output tables hold {got.length} entries, the drop loop of the model yields {exp.length}; kept but should be dropped: [{showRunBrief extra}]; dropped but should be kept: [{showRunBrief missing}]"
+            -- the input sets are a fixed point of setup_other_inputs (Model/Policy.lean): the level-N inputs are closed under
+            -- boundary files, the level-N+1 inputs are exactly the files overlapping their range plus boundary files
+            -- (theorem Policy.setupOtherInputs_establishes_contract derives clauses (a), (a') of stepOk from that)
+            let t :=
+              let lv := t.st.level level
+              let lv1 := t.st.level (level + 1)
+              let f0 := pickNums lv in0
+              let f1 := pickNums lv1 in1
+              let same := fun (a b : List FileMeta) => a.all (fun x => b.any (fun y => y.num == x.num)) && b.all (fun x => a.any (fun y => y.num == x.num))
+              if f0.isEmpty || level + 1 ≥ 7 then t else
+              let t := { t with nInputs := t.nInputs + 1 }
+              match Policy.setupStage1 t.cmp lv lv1 f0 with
+              | none => t.problem "MISMATCH[inputs]" s!"compaction L{level} in0={in0} in1={in1}: setup_other_inputs of the model faults on these inputs"
+              | some s =>
+                if same s.in0 f0 && same s.in1 f1 then t
+                else t.problem "MISMATCH[inputs]" s!"compaction L{level} in0={in0} in1={in1}: from these level-{level} inputs setup_other_inputs yields in0={s.in0.map (·.num)} in1={s.in1.map (·.num)} (boundary files / overlapping level-{level + 1} files differ)"
             let t := t.doStep (.compact level in0 in1 metas) s!"compaction L{level} in0={in0} in1={in1} outs={metas.map (·.num)}"
             if trivial then { t with nTrivial := t.nTrivial + 1 } else { t with nCompact := t.nCompact + 1 }
     | _, _ => t.problem "MISMATCH[other]" "unparsable edit"
@@ -611,6 +641,7 @@ def handleLine (t : TS) (line : String) : TS :=
     | some n, some sz, some run => { t with files := (n, sz, run) :: t.files }
     | _, _, _ => t.problem "MISMATCH[other]" "unparsable file dump"
   | ["csnap", n] => { t with csnap := n.toNat? }
+  | ["opts", m] => { t with mfs := ((m.drop 4).toString.toNat?).getD t.mfs }
   | ["edit", spec, rc] => { (handleEdit t spec rc) with csnap := none }
   | ["ver", ls, nf, ln, immf, levels] => handleVer t ls nf ln immf levels
   | ["ver", ls, nf, ln, immf, levels, m] => { (handleVer t ls nf ln immf levels) with manifestNum := ((m.drop 2).toString.toNat?).getD 0 }
@@ -764,4 +795,4 @@ def main : IO Unit := do
     IO.println p
   for k in t.known do
     IO.println s!"KNOWN {k}"
-  IO.println s!"done lines={t.lineNo} writes={t.nWrites} gets={t.nGets} iterops={t.nIter} flushes={t.nFlush} compactions={t.nCompact} trivialmoves={t.nTrivial} droploops={t.nDropLoop} dropped={t.nDropped} droppedtombstones={t.nDropBase} recoveries={t.nRecover} invchecks={t.nInv} vers={t.nVer} ls={t.nLs} lifecycle={t.nLifecycle} corruptions={t.nCorrupt} corruptreads={t.nCorruptReads} corrupterrors={t.nCorruptErrors} repairs={t.nRepairs} liveiterops={t.nLongIterOps} crashes={t.nCrash} crashes2={t.nCrash2} crashesnested={t.nCrashN} crashnonempty={t.nCrashNontrivial} jevents={t.nJ} ioevents={t.io.nEvents} edits={t.io.nEdits} conforms={if t.io.mon.ok then 1 else 0} conformsstrict={if t.io.mon.ok && t.io.mon.okDel then 1 else 0} werr={t.nWerr} failedopens={t.nFailedOpens} failedbatches={t.nFailedBatches} maxfiles={t.maxFiles} levelsused={t.levelsUsed} problems={t.problems.length + t.io.problems.length}"
+  IO.println s!"done lines={t.lineNo} writes={t.nWrites} gets={t.nGets} iterops={t.nIter} flushes={t.nFlush} compactions={t.nCompact} trivialmoves={t.nTrivial} droploops={t.nDropLoop} inputsets={t.nInputs} picklevels={t.nPickLevel} pickdeep={t.nPickDeep} dropped={t.nDropped} droppedtombstones={t.nDropBase} recoveries={t.nRecover} invchecks={t.nInv} vers={t.nVer} ls={t.nLs} lifecycle={t.nLifecycle} corruptions={t.nCorrupt} corruptreads={t.nCorruptReads} corrupterrors={t.nCorruptErrors} repairs={t.nRepairs} liveiterops={t.nLongIterOps} crashes={t.nCrash} crashes2={t.nCrash2} crashesnested={t.nCrashN} crashnonempty={t.nCrashNontrivial} jevents={t.nJ} ioevents={t.io.nEvents} edits={t.io.nEdits} conforms={if t.io.mon.ok then 1 else 0} conformsstrict={if t.io.mon.ok && t.io.mon.okDel then 1 else 0} werr={t.nWerr} failedopens={t.nFailedOpens} failedbatches={t.nFailedBatches} maxfiles={t.maxFiles} levelsused={t.levelsUsed} problems={t.problems.length + t.io.problems.length}"
